@@ -155,10 +155,11 @@ deriving DecidableEq, Repr
 def emptyRaw : RawConfig := ⟨"", "", "", [], [], 0, "", "", "", "", [], false, "", "", "", "", 0, 0⟩
 
 /-- `ParseConfig` after the text has been obtained: `raw = new(RawConfig); err = json.Unmarshal(content, target)`.
-`nullNil` = the target is the pointer variable (`&raw`), so `null` stores a nil pointer and reports no error;
-otherwise the target is the struct and `null` is a no-op.  `.ok none` = `(nil, nil)`. -/
-def parseDoc (nullNil : Bool) : Doc → Except Unit (Option RawConfig)
-  | .null => if nullNil then .ok none else .ok (some emptyRaw)
+`onNull` (extracted) says what the document `null` leads to: `"nil-config"` — the target is the pointer variable
+(`&raw`), `null` stores a nil pointer, no error, nothing tests it: `(nil, nil)`; `"error"` — the same target followed
+by a nil test that returns an error; `"empty-config"` — the target is the struct, `null` is a no-op. -/
+def parseDoc (onNull : String) : Doc → Except Unit (Option RawConfig)
+  | .null => if onNull = "nil-config" then .ok none else if onNull = "error" then .error () else .ok (some emptyRaw)
   | .object raw => .ok (some raw)
   | .other => .error ()
 
@@ -170,8 +171,8 @@ inductive Loaded
 deriving DecidableEq, Repr
 
 /-- `ParseConfig` followed by what `cmd/ck-client` does (it uses the result without a nil test, then `ProcessRawConfig`) -/
-def loadDocWith (nullNil : Bool) (lower : String → String) (d : Doc) : Loaded :=
-  match parseDoc nullNil d with
+def loadDocWith (onNull : String) (lower : String → String) (d : Doc) : Loaded :=
+  match parseDoc onNull d with
   | .error _ => .parseError
   | .ok none => .nilDereference
   | .ok (some raw) =>
@@ -179,7 +180,7 @@ def loadDocWith (nullNil : Bool) (lower : String → String) (d : Doc) : Loaded 
     | .ok c => .ok c
     | .error e => .configError e
 
-def loadDoc (lower : String → String) (d : Doc) : Loaded := loadDocWith Gen.ClientCfg.parseNullGivesNilConfig lower d
+def loadDoc (lower : String → String) (d : Doc) : Loaded := loadDocWith Gen.ClientCfg.parseNullOutcome lower d
 
 /-! ### the first connection made with an accepted configuration -/
 
